@@ -141,6 +141,52 @@ class Values:
             return f, env, e
         return f, env, e
 
+    def leaves(self, f: FuncInfo, env, e: ast.AST, _depth: int = 0, _busy: Optional[frozenset] = None):
+        """Every leaf expression `e` may evaluate to, across frames: all plain bindings of a local, both arms of a conditional
+        expression, the caller's argument for a helper's parameter, every `return` of a spliced helper.
+        -> [(frame function, frame env, leaf expression)]"""
+        from ..cfg import bind_args
+
+        _busy = _busy or frozenset()
+        e = strip_cast(e)
+        if _depth > 12:
+            return [(f, env, e)]
+        if isinstance(e, ast.IfExp):
+            return self.leaves(f, env, e.body, _depth + 1, _busy) + self.leaves(f, env, e.orelse, _depth + 1, _busy)
+        if isinstance(e, ast.Name):
+            sc = self.an.scope(f)
+            key = (f.qual, e.id)
+            if key in _busy:
+                return []
+            out = []
+            if e.id in sc.params:
+                if env and e.id in env and e.id not in self._augmented(f):
+                    caller, arg, cenv = env[e.id]
+                    out += self.leaves(caller, cenv, arg, _depth + 1, _busy)
+                else:
+                    out.append((f, env, e))
+                if not sc.defs.get(e.id):
+                    return out
+            bs = self.bindings(f, e.id)
+            if bs is None:
+                return out or [(f, env, e)]
+            for b in bs:
+                out += self.leaves(f, env, b, _depth + 1, _busy | {key})
+            return out or [(f, env, e)]
+        if isinstance(e, ast.Await) and isinstance(strip_cast(e.value), ast.Call) and id(strip_cast(e.value)) in self.an.spliced_at:
+            return self.leaves(f, env, strip_cast(e.value), _depth + 1, _busy)
+        if isinstance(e, ast.Call):
+            t = self.an.spliced_at.get(id(e))
+            if t is not None:
+                rets = [r.value for r in _own_nodes(t.node) if isinstance(r, ast.Return) and r.value is not None]
+                sub = bind_args(e, t, f, env)
+                out = []
+                for r in rets:
+                    out += self.leaves(t, sub, r, _depth + 1, _busy)
+                if out:
+                    return out
+        return [(f, env, e)]
+
     def canon_at(self, f: FuncInfo, env, e: ast.AST, _depth: int = 0) -> str:
         """canon() seen from the root function: parameters of a spliced helper are replaced by what the caller passed."""
         txt = self.canon(f, e)
